@@ -335,3 +335,20 @@ def resolve_phi(val: Term, leaf) -> Term:
         else:
             break
     return val
+
+
+def float_floordiv(t: Term) -> Optional[Term]:
+    """A `//` (or np.floor_divide) node inside a count expression whose operands are floating-point quantities.  Python's float
+    floor division rounds the QUOTIENT OF THE BINARY OPERANDS down: 10.0 // 0.2 == 49.0 and 1.0 // 0.1 == 9.0, although
+    int(10.0 / 0.2) == 50 and int(1.0 / 0.1) == 10 - exact decimal multiples lose one unit."""
+    for x in walk(t):
+        if (x[0] == "bin" and x[1] == "//") or (x[0] == "call" and x[1] == "numpy.floor_divide" and len(x[2]) == 2):
+            a, b = (x[2], x[3]) if x[0] == "bin" else x[2]
+            # integer-only operands (loop counters, lengths, literals) are exact
+            def inty(z):
+                return all((y[0] == "const" and isinstance(y[1], int)) or y[0] in ("loopvar", "bin", "un") or (y[0] == "attr" and y[2] in ("nparticle", "nsnapshots", "shape")) or
+                           (y[0] == "call" and y[1] in ("builtins.len", "builtins.int")) or (y[0] == "sub" and y[1][0] == "attr" and y[1][2] == "shape") for y in walk(z)
+                           if y[0] not in ("tuple",))
+            if not (inty(a) and inty(b)):
+                return x
+    return None
